@@ -31,7 +31,7 @@ fn ocean() -> Coordinates {
 }
 
 /// The menu of calls; each returns a digest of everything it observed.
-fn perform(call: &str, shared: &OpeningHours) -> String {
+fn perform(call: &str, shared: &OpeningHours, ti: usize) -> String {
     match call {
         "holidays_fr" => {
             let h = Country::FR.holidays();
@@ -106,12 +106,20 @@ fn perform(call: &str, shared: &OpeningHours) -> String {
                 "{:?} {:?} {:?} {:?} {:?} {:?} {:?}",
                 us.state(t), fr.state(t), us.schedule_at(d), fr.schedule_at(d), fr.next_change(t), us.next_change(t), base.state(t)
             );
+            // every isolated answer comes from a freshly parsed expression on a thread of its own (no per-thread leftovers)
             let iso = |h: opening_hours::ContextHolidays| OpeningHours::parse(src).unwrap().with_context(Context::default().with_holidays(h));
-            let (ifr, ius, ibase) = (iso(Country::FR.holidays()), iso(Country::US.holidays()), OpeningHours::parse(src).unwrap());
-            let isolated = format!(
-                "{:?} {:?} {:?} {:?} {:?} {:?} {:?}",
-                ius.state(t), ifr.state(t), ius.schedule_at(d), ifr.schedule_at(d), ifr.next_change(t), ius.next_change(t), ibase.state(t)
-            );
+            let alone = |f: Box<dyn FnOnce() -> String + Send>| std::thread::spawn(f).join().unwrap_or_else(|_| "PANIC".into());
+            let (hfr, hus) = (Country::FR.holidays(), Country::US.holidays());
+            let parts: Vec<String> = vec![
+                alone(Box::new({ let h = hus.clone(); move || format!("{:?}", iso(h).state(t)) })),
+                alone(Box::new({ let h = hfr.clone(); move || format!("{:?}", iso(h).state(t)) })),
+                alone(Box::new({ let h = hus.clone(); move || format!("{:?}", iso(h).schedule_at(d)) })),
+                alone(Box::new({ let h = hfr.clone(); move || format!("{:?}", iso(h).schedule_at(d)) })),
+                alone(Box::new({ let h = hfr.clone(); move || format!("{:?}", iso(h).next_change(t)) })),
+                alone(Box::new({ let h = hus.clone(); move || format!("{:?}", iso(h).next_change(t)) })),
+                alone(Box::new(move || format!("{:?}", OpeningHours::parse(src).unwrap().state(t)))),
+            ];
+            let isolated = parts.join(" ");
             format!("{} {}", if inter == isolated { "CONSISTENT" } else { "INCONSISTENT" }, inter)
         }
         "clone_locale_switch" => {
@@ -121,9 +129,22 @@ fn perform(call: &str, shared: &OpeningHours) -> String {
             let (a, b) = (mk(&base, paris()), mk(&base, tokyo()));
             let d = NaiveDate::from_ymd_opt(2024, 6, 21).unwrap();
             let inter = format!("{:?} {:?} {:?}", a.schedule_at(d), b.schedule_at(d), a.schedule_at(d));
-            let fresh = OpeningHours::parse(src).unwrap();
-            let fresh2 = OpeningHours::parse(src).unwrap();
-            let isolated = format!("{:?} {:?} {:?}", mk(&fresh, paris()).schedule_at(d), mk(&fresh2, tokyo()).schedule_at(d), mk(&fresh, paris()).schedule_at(d));
+            // also through state / next_change at instants of the same and of the next day
+            let (t1, t2) = (chrono_tz::UTC.from_utc_datetime(&dt("2024-06-21 07:30")), chrono_tz::UTC.from_utc_datetime(&dt("2024-06-22 20:30")));
+            let inter = format!("{inter} {:?} {:?} {:?} {:?}", a.state(t1), b.state(t1), b.next_change(t2), a.next_change(t2));
+            let alone = |c: Coordinates, what: u8| {
+                std::thread::spawn(move || {
+                    let o = OpeningHours::parse(src).unwrap().with_context(Context::default().with_locale(TzLocation::new(chrono_tz::UTC).with_coords(c)));
+                    match what {
+                        0 => format!("{:?}", o.schedule_at(d)),
+                        1 => format!("{:?}", o.state(t1)),
+                        _ => format!("{:?}", o.next_change(t2)),
+                    }
+                })
+                .join()
+                .unwrap_or_else(|_| "PANIC".into())
+            };
+            let isolated = [alone(paris(), 0), alone(tokyo(), 0), alone(paris(), 0), alone(paris(), 1), alone(tokyo(), 1), alone(tokyo(), 2), alone(paris(), 2)].join(" ");
             format!("{} {}", if inter == isolated { "CONSISTENT" } else { "INCONSISTENT" }, inter)
         }
         "interleave_exprs" => {
@@ -135,6 +156,23 @@ fn perform(call: &str, shared: &OpeningHours) -> String {
             let again = format!("{:?} {:?}", a.state(t), a.next_change(t));
             let bb = format!("{:?} {:?}", b.state(t), b.next_change(t));
             format!("{} {first} {bb}", if first == again { "CONSISTENT" } else { "INCONSISTENT" })
+        }
+        "shared_walk" => {
+            // every thread asks its clone of the ONE shared value about the same 240 instants, each in another order; the answers,
+            // put back in the order of the instants, must be those of a sequential walk
+            let n = 240usize;
+            let base = dt("2024-07-01 00:30");
+            let mut answers: Vec<String> = vec![String::new(); n];
+            for j in 0..n {
+                let k = (j * 7 + ti * 37) % n;
+                let t = base + chrono::Duration::minutes(97 * k as i64);
+                answers[k] = format!("{:?}/{:?}/{}", shared.state(t), shared.next_change(t), shared.schedule_at(t.date()).into_iter().count());
+            }
+            let mut h: u64 = 0xcbf29ce484222325;
+            for b in answers.join("|").bytes() {
+                h = (h ^ u64::from(b)).wrapping_mul(0x100000001b3);
+            }
+            format!("{n} answers, digest {h:016x}, first {}", answers[0])
         }
         other => panic!("unknown call {other}"),
     }
@@ -164,7 +202,7 @@ pub fn run(args: &Args) {
             std::hint::black_box(x);
 
             for (seq, call) in calls.iter().enumerate() {
-                let digest = guarded(|| perform(call, &shared)).unwrap_or_else(|p| format!("PANIC: {p}"));
+                let digest = guarded(|| perform(call, &shared, ti)).unwrap_or_else(|p| format!("PANIC: {p}"));
                 events.push(json!({"thread": ti, "seq": seq, "call": call, "digest": digest}));
             }
 
